@@ -147,35 +147,75 @@ Section WalkerP.
     filter (fun p : tree * res => f (fst p)) (map (fun t => (t, ev t)) l) = map (fun t => (t, ev t)) (filter f l).
   Proof. induction l as [|x l IH]; [reflexivity|]. cbn [map filter fst]. destruct (f x); cbn [map]; rewrite IH; reflexivity. Qed.
 
-  Lemma walk_list c ss fs ks : let t := T $"list" ss fs ks in
-    walk c t = combine (sequence c (map (fun d => (d, ev d)) (seq_parts t))).
+  (* the parts of a list with the operator written after each: the tree-only counterpart of [with_ops] *)
+  Fixpoint ops_after_t (l : list tree) (cur : str) : str :=
+    match l with o :: rest => if is_kind "operator" o then ops_after_t rest (attr_d "op" o) else cur | [] => cur end.
+  Fixpoint tops (l : list tree) : list (tree * str) :=
+    match l with
+    | [] => []
+    | t :: rest => if is_kind "operator" t then tops rest else (t, ops_after_t rest op_semi) :: tops rest
+    end.
+  Definition list_items (t : tree) : list (tree * str) := tops (children "parts" t).
+  Definition with_ev (l : list (tree * str)) : list (tree * res * str) := map (fun p => (fst p, ev (fst p), snd p)) l.
+
+  Lemma ops_after_pairs l cur : ops_after (map (fun d => (d, ev d)) l) cur = ops_after_t l cur.
+  Proof. revert cur; induction l as [|o l IH]; intro cur; [reflexivity|]. cbn [map ops_after ops_after_t]. destruct (is_kind "operator" o); [apply IH|reflexivity]. Qed.
+
+  Lemma with_ops_pairs l : with_ops (map (fun d => (d, ev d)) l) = with_ev (tops l).
   Proof.
-    intro t. subst t. open_node. rewrite (lbl_children "parts" $"list" ss fs ks).
-    rewrite (filter_pairs (fun p => negb (is_kind "operator" p))). reflexivity.
+    induction l as [|t l IH]; [reflexivity|]. cbn [map with_ops tops]. destruct (is_kind "operator" t); [exact IH|].
+    unfold with_ev in *. cbn [map fst snd]. rewrite ops_after_pairs, IH. reflexivity.
+  Qed.
+
+  Lemma tops_parts l : map fst (tops l) = filter (fun p => negb (is_kind "operator" p)) l.
+  Proof.
+    induction l as [|t l IH]; [reflexivity|]. cbn [tops filter]. destruct (is_kind "operator" t); cbn [negb map fst]; [exact IH|].
+    f_equal. exact IH.
+  Qed.
+
+  Lemma list_items_parts t : map fst (list_items t) = seq_parts t.
+  Proof. apply tops_parts. Qed.
+
+  Lemma walk_list c ss fs ks : let t := T $"list" ss fs ks in
+    walk c t = combine (sequence (init_state c) (with_ev (list_items t))).
+  Proof.
+    intro t. subst t. open_node. rewrite (lbl_children "parts" $"list" ss fs ks), with_ops_pairs. reflexivity.
   Qed.
 
   (* the context each element of a sequence is analysed in *)
+  Notation next_state := (next_state cdres).
   Notation next_ctx := (next_ctx cdres).
-  Fixpoint seq_ctxs (c : ctx) (l : list tree) : list (ctx * tree) :=
-    match l with [] => [] | t :: r => (c, t) :: seq_ctxs (next_ctx c t) r end.
+  Fixpoint seq_ctxs (st : seq_state) (l : list (tree * str)) : list (ctx * tree) :=
+    match l with [] => [] | (t, op) :: r => (fst st, t) :: seq_ctxs (next_state st t op) r end.
 
-  Lemma sequence_ctxs c l :
-    sequence c (map (fun d => (d, ev d)) l) = map (fun p => walk (fst p) (snd p)) (seq_ctxs c l).
+  Lemma sequence_ctxs st l :
+    sequence st (with_ev l) = map (fun p => walk (fst p) (snd p)) (seq_ctxs st l).
   Proof.
-    revert c; induction l as [|t l IH]; intro c; [reflexivity|].
-    cbn [map Walker.sequence seq_ctxs fst snd]. f_equal. apply IH.
+    revert st; induction l as [|[t op] l IH]; intro st; [reflexivity|].
+    unfold with_ev in *. cbn [map Walker.sequence seq_ctxs fst snd]. f_equal. apply IH.
   Qed.
+
+  Definition semis_t (l : list tree) : list (tree * str) := map (fun t => (t, op_semi)) l.
+  Lemma semis_pairs l : semis (map (fun t => (t, ev t)) l) = with_ev (semis_t l).
+  Proof. unfold semis, with_ev, semis_t. rewrite !map_map. reflexivity. Qed.
 
   Definition no_cd (t : tree) : Prop := extract_cd_target t = None /\ changes_directory t = false.
 
-  Lemma seq_ctxs_no_cd c l : (snd c = true \/ Forall no_cd l) -> seq_ctxs c l = map (fun t => (c, t)) l.
+  Lemma next_state_no_cd c t op prev : (snd c = true \/ no_cd t) ->
+    fst (next_state (c, (false, prev)) t op) = c /\ st_assumed (next_state (c, (false, prev)) t op) = false.
   Proof.
-    induction l as [|t l IH]; intro H; [reflexivity|].
-    cbn [seq_ctxs map]. f_equal.
-    assert (E : next_ctx c t = c).
-    { unfold Walker.next_ctx. destruct H as [H|H]; [rewrite H; reflexivity|].
-      inversion H as [|? ? Ht Hl]; subst. destruct Ht as [Ht1 Ht2]. rewrite Ht1, Ht2. destruct (snd c); reflexivity. }
-    rewrite E. apply IH. destruct H as [H|H]; [left; exact H|right; inversion H; assumption].
+    intro H. unfold Walker.next_state, st_assumed, st_prev. cbn [fst snd]. destruct (snd c) eqn:E; [split; reflexivity|].
+    destruct H as [H|[H1 H2]]; [discriminate|]. rewrite H1, H2. destruct (str_eqb op op_bg); cbn [fst snd andb]; split; reflexivity.
+  Qed.
+
+  Lemma seq_ctxs_no_cd c prev l : (snd c = true \/ Forall no_cd (map fst l)) -> seq_ctxs (c, (false, prev)) l = map (fun p => (c, fst p)) l.
+  Proof.
+    revert prev. induction l as [|[t op] l IH]; intros prev H; [reflexivity|].
+    cbn [seq_ctxs map fst]. f_equal.
+    assert (Ht : snd c = true \/ no_cd t) by (destruct H as [H|H]; [left; exact H|right; cbn [map fst] in H; inversion H; assumption]).
+    destruct (next_state_no_cd c t op prev Ht) as [E1 E2].
+    destruct (next_state (c, (false, prev)) t op) as [c' [a' p']] eqn:En. cbn [fst] in E1. unfold st_assumed in E2. cbn [fst snd] in E2. subst c' a'.
+    apply IH. destruct H as [H|H]; [left; exact H|right; cbn [map fst] in H; inversion H; assumption].
   Qed.
 
   (* without a cd among the parts (or in remote mode) a list is the join of its parts *)
@@ -183,43 +223,60 @@ Section WalkerP.
     (snd c = true \/ Forall no_cd (seq_parts t)) ->
     walk c t = combine (map (walk c) (seq_parts t)).
   Proof.
-    intros t H. subst t. rewrite walk_list, sequence_ctxs, seq_ctxs_no_cd by exact H.
-    rewrite map_map. reflexivity.
+    intros t H. subst t. rewrite walk_list, sequence_ctxs. unfold init_state. rewrite seq_ctxs_no_cd by (rewrite list_items_parts; exact H).
+    rewrite map_map. cbn [fst snd]. rewrite <- list_items_parts, map_map. reflexivity.
   Qed.
 
   (* ---- loops over words, case ---- *)
-  Definition wparts (c : ctx) (l : list tree) : list verdict := flat_map (fun w => r_wp (ev w) false c) l.
+  Definition wpartsb (b : bool) (c : ctx) (l : list tree) : list verdict := flat_map (fun w => r_wp (ev w) b c) l.
+  Definition wparts (c : ctx) (l : list tree) : list verdict := wpartsb false c l.
 
   Lemma wparts_kr (k : string) c kd ss fs ks :
     wparts_of k (kr_of ks) c = wparts c (children k (T kd ss fs ks)).
   Proof.
-    unfold wparts_of, wparts. rewrite (lbl_children k kd ss fs ks).
+    unfold wparts_of, wparts, wpartsb. rewrite (lbl_children k kd ss fs ks).
     rewrite flat_map_concat_map, map_map, <- flat_map_concat_map. reflexivity.
   Qed.
 
   Lemma walk_for c ss fs ks : let t := T $"for" ss fs ks in
     let cb := body_ctx c (match child "body" t with Some x => changes_directory x | None => false end) in
-    walk c t = combine (need cb (child "body" t) :: wparts c (children "words" t) ++ redirs_of c t).
+    walk c t = combine (need cb (child "body" t) :: wpartsb true c (children "words" t) ++ redirs_of c t).
   Proof.
     intros t cb. subst t cb. open_node. rewrite (moves_kr "body" $"for" ss fs).
-    rewrite (need_kr "body" _ $"for" ss fs), (wparts_kr "words" c $"for" ss fs), (redirs_kr c $"for" ss fs). reflexivity.
+    rewrite (need_kr "body" _ $"for" ss fs), (redirs_kr c $"for" ss fs), (lbl_children "words" $"for" ss fs ks).
+    unfold wpartsb. rewrite flat_map_concat_map, map_map, <- flat_map_concat_map. reflexivity.
   Qed.
   Lemma walk_select c ss fs ks : let t := T $"select" ss fs ks in
     let cb := body_ctx c (match child "body" t with Some x => changes_directory x | None => false end) in
-    walk c t = combine (need cb (child "body" t) :: wparts c (children "words" t) ++ redirs_of c t).
+    walk c t = combine (need cb (child "body" t) :: wpartsb true c (children "words" t) ++ redirs_of c t).
   Proof.
     intros t cb. subst t cb. open_node. rewrite (moves_kr "body" $"select" ss fs).
-    rewrite (need_kr "body" _ $"select" ss fs), (wparts_kr "words" c $"select" ss fs), (redirs_kr c $"select" ss fs). reflexivity.
+    rewrite (need_kr "body" _ $"select" ss fs), (redirs_kr c $"select" ss fs), (lbl_children "words" $"select" ss fs ks).
+    unfold wpartsb. rewrite flat_map_concat_map, map_map, <- flat_map_concat_map. reflexivity.
   Qed.
 
-  Definition pats (c : ctx) (l : list tree) : list verdict := flat_map (fun p => r_pat (ev p) c) l.
+  (* the items of a case in order, each in the directory the earlier fall-through items leave *)
+  Fixpoint pats (c : ctx) (l : list tree) : list verdict :=
+    match l with [] => [] | p :: rest => r_pat (ev p) c ++ pats (item_ctx c p) rest end.
+
+  Lemma case_items_pairs c l : case_items c (map (fun t => (t, ev t)) l) = pats c l.
+  Proof. revert c; induction l as [|p l IH]; intro c; [reflexivity|]. cbn [map case_items pats]. rewrite IH. reflexivity. Qed.
+
+  (* without a fall-through item that changes directory the items are all judged where the case is *)
+  Lemma pats_plain c l : (snd c = true \/ Forall (fun p => item_moves p = false) l) -> pats c l = flat_map (fun p => r_pat (ev p) c) l.
+  Proof.
+    induction l as [|p l IH]; intro H; [reflexivity|]. cbn [pats flat_map].
+    assert (E : item_ctx c p = c).
+    { unfold item_ctx. destruct H as [H|H]; [rewrite H; reflexivity|]. inversion H as [|? ? Hp _]; subst. rewrite Hp, andb_false_r. reflexivity. }
+    rewrite E, IH; [reflexivity|]. destruct H as [H|H]; [left; exact H|right; inversion H; assumption].
+  Qed.
 
   Lemma walk_case c ss fs ks : let t := T $"case" ss fs ks in
     walk c t = combine (wparts c (children "word" t) ++ pats c (children "patterns" t) ++ redirs_of c t).
   Proof.
     intro t. subst t. open_node.
     rewrite (wparts_kr "word" c $"case" ss fs), (redirs_kr c $"case" ss fs), (lbl_children "patterns" $"case" ss fs ks).
-    unfold pats. rewrite flat_map_concat_map, map_map, <- flat_map_concat_map. reflexivity.
+    rewrite case_items_pairs. reflexivity.
   Qed.
 
   (* one case arm: its pattern text is scanned, its body walked *)
@@ -312,7 +369,7 @@ Section WalkerP.
     if str_eqb k $"heredoc" then
       match flag "quoted" t with Some false => rawscan c (attr_d "content" t) | _ => [] end
     else
-      match child "target" t with Some w => r_wp (ev w) false c | None => [] end ++
+      match child "target" t with Some w => r_wp (ev w) (str_eqb (attr_d "op" t) HERESTRING_OP) c | None => [] end ++
       (if snd c then [] else
          match redirect_check (attr_d "op" t)
                  (match child "target" t with Some w => attr_d "value" w | None => [] end)
@@ -359,13 +416,23 @@ Section WalkerP.
     if existsb is_pure_cmdsub (skipn (S (length ws - length tokens)) (children "words" t))
     then (if injrisk c tokens then [Ask] else []) else [].
 
+  (* quoted variable-name arguments of test / [ / read / printf -v: scanned as raw strings *)
+  Definition cmd_names (c : ctx) (t : tree) : list verdict :=
+    let ws := cmd_words t in
+    let tokens := skip_assignments ws in
+    name_scans astr c (match tokens with b :: _ => b | [] => [] end) ws (length ws - length tokens) 0 (children "words" t).
+
+  (* an "ask" for every word of the assignment prefix that sets a variable deciding what runs (PATH, LD_PRELOAD, ...) *)
+  Definition cmd_env (t : tree) : list verdict :=
+    let ws := cmd_words t in env_asks (length ws - length (skip_assignments ws)) 0 ws.
+
   Lemma walk_command c ss fs ks : let t := T $"command" ss fs ks in
-    walk c t = combine (wparts c (children "words" t) ++ cmd_inj c t ++ redirs_of c t ++ cmd_proper c t).
+    walk c t = combine (wparts c (children "words" t) ++ cmd_env t ++ cmd_names c t ++ cmd_inj c t ++ redirs_of c t ++ cmd_proper c t).
   Proof.
     intro t. subst t. open_node.
     rewrite (redirs_kr c $"command" ss fs), (lbl_children "words" $"command" ss fs ks).
-    unfold wparts, cmd_inj, cmd_proper, cmd_words.
-    rewrite !map_map. cbn [fst snd].
+    unfold wparts, wpartsb, cmd_env, cmd_names, cmd_inj, cmd_proper, cmd_words.
+    rewrite !map_map. cbn [fst snd]. rewrite map_id.
     rewrite skipn_map, existsb_map_pairs.
     rewrite (flat_map_concat_map _ (map _ _)), map_map, <- flat_map_concat_map. cbn [snd].
     reflexivity.
